@@ -15,6 +15,7 @@ import DvcData.Model.Checkout
 import DvcData.Model.Build
 import DvcData.Model.IndexLazy
 import DvcData.Model.PushFetch
+import DvcData.Model.Conc
 open Lean DvcData
 
 /-! Line-protocol driver: one JSON request per line on stdin, one JSON answer per line on stdout.
@@ -665,6 +666,38 @@ def opPushPlan (j : Lean.Json) : Except String Lean.Json := do
       | none => Lean.Json.str "StorageKeyError"
       | some i => Lean.Json.arr #[optS (i.data.map (·.toList)), optS (i.cache.map (·.toList)), optS (i.remote.map (·.toList))]).toArray)])
 
+/-! ### concurrent writers: run a schedule -/
+
+def pcTo : Conc.Pc → String
+  | .stat => "stat" | .read => "read" | .discard => "discard" | .vprotect => "vprotect" | .probe => "probe"
+  | .unlink => "unlink" | .create => "create" | .write => "write" | .protect => "protect" | .save => "save"
+  | .done => "done" | .restat => "restat" | .reread => "reread" | .rediscard => "rediscard" | .failed => "failed"
+
+def objsTo (s : Crash.S) (watch : List String) : Lean.Json :=
+  Lean.Json.arr (watch.map fun oid => match AList.lookup s.objs oid with
+    | none => Lean.Json.arr #[.str oid, .null]
+    | some o => Lean.Json.arr #[.str oid, Lean.Json.mkObj [("len", o.data.length), ("ok", decide (md5Of o.data = (oid.splitOn ".").head!)),
+        ("prot", o.prot)]]).toArray
+
+def opSched (j : Lean.Json) : Except String Lean.Json := do
+  let root ← bool j "root"
+  let objs ← (← arr j "objs").toList.mapM fun o => do
+    pure (← str o "oid", ({ data := ← unhex (← str o "data"), prot := ← bool o "prot" } : Crash.Obj))
+  let ths ← (← arr j "threads").toList.mapM fun t => do
+    pure ({ oid := ← str t "oid", t := (← nat t "tmp", 0), chunks := ← hexList t "chunks" } : Conc.Thread)
+  let sched ← (← arr j "sched").toList.mapM fun x => x.getNat?
+  let watch ← strList j "watch"
+  let H : Crash.Bytes → Crash.Oid := fun b => md5Of b
+  let mut c : Conc.Cfg := ({ objs := objs }, ths)
+  let mut out : Array Lean.Json := #[]
+  for i in sched do
+    let before := match c.2[i]? with | some th => pcTo th.pc | none => "none"
+    c := Conc.stepAt root H c i
+    let after := match c.2[i]? with | some th => pcTo th.pc | none => "none"
+    out := out.push (Lean.Json.mkObj [("w", i), ("pc", before), ("pc_after", after), ("after", objsTo c.1 watch)])
+  pure (Lean.Json.mkObj [("steps", Lean.Json.arr out), ("pcs", strArr (c.2.map fun th => pcTo th.pc)),
+    ("rows", strArr c.1.rows), ("final", objsTo c.1 watch)])
+
 def kindOf (s : String) : Except String Merge.Kind :=
   match s with
   | "add" => pure .add | "remove" => pure .remove | "change" => pure .change
@@ -708,6 +741,7 @@ def dispatch (j : Json) : Except String Json := do
   | "names" => opNames j
   | "lazy" => opLazy j
   | "push_plan" => opPushPlan j
+  | "sched" => opSched j
   | "ping" => pure (Json.mkObj [("pong", true)])
   | op => throw s!"unknown op {op}"
 
